@@ -175,7 +175,7 @@ impl Property for C04 {
     fn plan(&self, tier: Tier) -> Vec<Stage<Case>> {
         let mut plan = vec![Stage::random(
             "random-calendars",
-            tier.pick(160_000, 3_000_000),
+            tier.pick(300_000, 12_000_000),
             case_strategy,
         )];
         // exhaustive sweep over the built-in calendars (all dates x 5 modifiers x 2 flags);
@@ -221,7 +221,7 @@ impl Property for C04 {
     }
 
     fn floors(&self, tier: Tier) -> Vec<Floor> {
-        let n = tier.pick(160_000u64, 3_000_000);
+        let n = tier.pick(300_000u64, 12_000_000);
         vec![
             Floor { label: "reversal", min: n / 200 },
             Floor { label: "skip-unsettled", min: n / 200 },
